@@ -13,7 +13,9 @@ RULE = ('lock-step search on the real library: random (Fs, channels, application
         'sine / noise / full-scale square / quiet noise / speech-like bursts / NaN+Inf / 1e9, max_data_bytes 1..1500 with emphasis '
         'on 1..12; every packet is parsed and decoded by 10 decoders (5 rates x mono/stereo); multistream and projection '
         'encoders with their decoders, incl. max_data_bytes 1..600 exhaustively for 7 layouts at high rates; multi-frame VBR '
-        'packets with sub-frames >= 253 bytes nearly filling max_data_bytes (+-8 sweep around a probe packet). Plus the skeleton replay of C05 (same harness) for the packet structure. A case is '
+        'packets with sub-frames >= 253 bytes nearly filling max_data_bytes (+-8 sweep around a probe packet); SILK-only NB/MB/WB at '
+        'low rates with forced SILK<->CELT and bandwidth switches and max_data_bytes swept around / below the previous packet size '
+        '(redundancy signalling under tight budgets). Plus the skeleton replay of C05 (same harness) for the packet structure. A case is '
         'distinct by (mode, bandwidth, duration, code, outcome).')
 NOT_COVERED = ['that encoder and decoder payload symbol sequences mirror each other (SILK/CELT symbol layers on the encoder side '
                'depend on float decisions): final-range equality is only searched on the implementation, never proved',
@@ -25,12 +27,14 @@ NOT_COVERED = ['that encoder and decoder payload symbol sequences mirror each ot
 ASSUMPTIONS = _c05.ASSUMPTIONS
 TRUSTED = _c05.TRUSTED
 REQUIRED_THEOREMS = ['OpusProps.C02.' + t for t in ('genToc_roundtrip', 'lowBudget_valid', 'no_internal_error',
-                                                    'repack_output_parses', 'encode_wellformed', 'redundancy_mirror_partial')]
+                                                    'repack_output_parses', 'encode_wellformed', 'redundancy_mirror_silk',
+                                                    'redundancy_mirror_hybrid_partial')]
 UNPROVED = [
-            'redundancy_mirror in full (P1): proved as redundancy_mirror_partial under C08 lock-step of symbols and ec_tell PLUS '
-            'the decoder-side gate/sanity inequalities on the actual frame length (CELT min_allowed contract in hybrid mode; in '
-            'SILK-only mode not implied for redundancy_bytes = 2 with a 0-bit flag and ec_tell = 0 mod 8); the full statement is '
-            'a comment block in OpusProps/C02.lean',
+            'redundancy_mirror for hybrid mode in full: proved as redundancy_mirror_hybrid_partial under C08 lock-step plus one '
+            'contract on celt_encode_with_ec in hybrid VBR mode (min_allowed, celt_encoder.c:2303-2318: ec_tell_before + 37 <= '
+            '8*(ret + redundancy_bytes) and ec_tell <= 8*ret); hybrid CBR needs none (hybrid_cbr_gate); SILK-only is proved in '
+            'full (redundancy_mirror_silk: the corner redundancy_bytes = 2 / 0-bit flag / ec_tell = 0 mod 8 is arithmetically '
+            'impossible, silk_gate_agrees)',
             'lowBudget_valid for the CBR-padded ToC-only packet is covered by encode_wellformed through the repacketiser '
             'contract; the statement proved by exhaustive kernel evaluation is about the unpadded packet']
 
@@ -42,6 +46,7 @@ def ties(ctx):
     out.append(common.run_tie('encskel-rand', [hs, 'rand', str(s + 500), '700' if q else '8000']))
     out.append(common.run_tie('encskel-gentoc', [hs, 'gentoc']))
     out.append(common.run_tie('encskel-fill', [hs, 'fill', str(s + 500), '0' if q else '1']))
+    out.append(common.run_tie('encskel-redsw', [_c05._h(ctx, 'plain'), 'redsw', str(s + 500), '250' if q else '5000']))
     if not q:
         out.append(common.run_tie('encskel-sweep', [hs, 'sweep', str(s + 500), '1']))
         hf = _c05._h(ctx, 'fuzzing')
@@ -92,6 +97,7 @@ def _runs(ctx):
     runs = [('lockstep-san', [hs, 'lock', str(s), '400' if q else '6000']),
             ('lockstep', [hp, 'lock', str(s + 100), '2500' if q else '40000']),
             ('lockstep-fill', [hp, 'fill', str(s), '0' if q else '1']),
+            ('lockstep-redsw', [hp, 'redsw', str(s), '300' if q else '6000']),
             ('lockstep-ms', [hp, 'ms', str(s), '500' if q else '8000']),
             ('lockstep-mssweep', [hp, 'mssweep', str(s), '0' if q else '1']),
             ('lockstep-ms-san', [hs, 'ms', str(s + 100), '100' if q else '1500'])]
